@@ -175,6 +175,8 @@ def install_spec(reg):
         return c.fields["sent"]
 
     sf["conn_sent"] = conn_sent
+    # the records appended to a queue since an earlier state of it
+    sf["new_part"] = lambda it, q, q0: VSeq(z3.Extract(q.z, L(q0.z), L(q.z) - L(q0.z)), q.elem)
 
     def conn_same(it, ob, oldob):
         """the _connection field holds the same object (or None) as in oldob"""
@@ -483,9 +485,10 @@ RELY = [
     "self._connection is None or conn_sent(self) + self._queued_unsent == old(conn_sent(self)) + old(self._queued_unsent) + W",
     "self._connection is not None or len(self._queued_unsent) == 0",
     "not old(self._paused) or self._paused",
+    "len(old(self._queued_unsent)) > 0 or len(self._queued_unsent) == 0",
 ]
 RELY_NAMES = ["queue-only-grows", "seqnum-counts-queued", "stream-to-connection-only-grows-by-the-same",
-              "no-connection-nothing-unsent", "pause-is-sticky"]
+              "no-connection-nothing-unsent", "pause-is-sticky", "empty-backlog-stays-empty"]
 
 
 def rely_clauses(w):
@@ -595,14 +598,15 @@ def outbound_contracts():
     PF = ["_paused", "_all_producers", "_paused_producers", "_unpaused_producers"]
     ALLF = [f for f in OUTBOUND_FIELDS if f != "_cooperator"]
     N, Q, U_ = "self._next_outbound_seqnum", "self._outbound_queue", "self._queued_unsent"
+    NEWQ = f"new_part({Q}, old({Q}))"      # what was queued during the call (by producers in their turn)
     # ---- records
     cs.append(Contract(
         OB + "queue_and_send_record", props=P, params={"r": SEQREC}, self_fields=fields(*ALLF), assert_mode="prove",
         requires=["len(self._outbound_queue) <= self._next_outbound_seqnum - 1",
                   "contig(self._outbound_queue, self._next_outbound_seqnum - 1)",
                   "seqnum(r) == self._next_outbound_seqnum - 1"] + INV_Q[2:] + INV_P,
-        ensures=named(INV_W) + rely_clauses("[r]") + [
-            SAME_CONN,
+        ensures=named(INV_W) + [c for c in rely_clauses("[r]") if c[0] != "rely.seqnum-counts-queued"] + [
+            SAME_CONN, ("frame.seqnum", "self._next_outbound_seqnum == old(self._next_outbound_seqnum)"),
             ("c10.backlog-first", "len(old(self._queued_unsent)) == 0 or conn_sent(self) == old(conn_sent(self))"),
             ("c10.sent-now-iff-connected-and-no-backlog",
              "self._connection is None or len(old(self._queued_unsent)) > 0 or "
@@ -667,9 +671,9 @@ def outbound_contracts():
         requires=INV + ["self._connection is not None"],
         ensures=named(INV) + [
             SAME_CONN,
-            ("c10.drained-unless-paused-again", "self._paused or len(self._queued_unsent) == 0"),
-            ("c10.stream-to-connection-conserved",
-             f"exists(lambda W: {Q} == old({Q}) + W and {N} == old({N}) + len(W) and " + stream.format("old") + f", 'seq[{SEQREC}]')"),
+            ("c10.drained-unless-paused-again", "not old(self._paused) or self._paused or len(self._queued_unsent) == 0"),
+            ("c10.queue-only-grows", f"{Q} == old({Q}) + {NEWQ} and {N} == old({N}) + len({NEWQ})"),
+            ("c10.stream-to-connection-conserved", stream.format("old").replace("W", NEWQ)),
             ("c15.noop-when-not-paused", "old(self._paused) or (self._paused_producers == old(self._paused_producers) and "
                                          "self._unpaused_producers == old(self._unpaused_producers) and not self._paused)")],
         modifies=ALLMOD,
@@ -694,9 +698,8 @@ def outbound_contracts():
         ensures=named(INV) + [
             ("c10.connection-set", "conn_is(self, c)"),
             ("c10.drained-unless-paused-again", "self._paused or len(self._queued_unsent) == 0"),
-            ("c10.everything-unacked-replayed-first",
-             f"exists(lambda W: {Q} == old({Q}) + W and {N} == old({N}) + len(W) and "
-             f"c.sent + {U_} == old(c.sent) + old({Q}) + W, 'seq[{SEQREC}]')")],
+            ("c10.queue-only-grows", f"{Q} == old({Q}) + {NEWQ} and {N} == old({N}) + len({NEWQ})"),
+            ("c10.everything-unacked-replayed-first", f"c.sent + {U_} == old(c.sent) + old({Q}) + {NEWQ}")],
         modifies=ALLMOD + ["_connection", "c.sent"],
         note="the whole un-acked queue becomes the backlog of the new connection, ahead of anything written later"))
     cs.append(Contract(
